@@ -96,6 +96,17 @@ def generate(seed, tier):
             block['ics'].append([v, txt])
             case['expect']['misuse'] = kind
         case['expect']['T'] = eqn.horizon_of(block, knobs)
+    if S['swarm'].random() < 0.2:
+        # solver reuse: another block (other names, other horizon) was solved on this solver before
+        pre, _m = gen_block(S['prelude'], 'contractive', T=S['prelude'].randint(1, 9), n=2, rich=False, allow_user_t=False)
+        import re
+        ren = {v: 'pre_' + v for v in eqn.block_vars(pre)}
+
+        def rn(txt):
+            return re.sub(r'[A-Za-z_][A-Za-z_0-9]*', lambda m: ren.get(m.group(0), m.group(0)), txt)
+        knobs['prelude'] = {'eqs': [[ren[v], rn(r_)] for v, r_ in pre['eqs']], 'lags': [[ren[l], ren[s_], st] for l, s_, st in pre['lags']],
+                            'ics': [[ren[v], t_] for v, t_ in pre['ics']], 'exo': [[ren[v], t_] for v, t_ in pre['exo']],
+                            'maxtime': pre['maxtime'], 'err_tol': None}
     if S['knobs'].random() < 0.5:
         tv = eqncases.ensure_cycle_var(block, rng)
         eqncases.wrap_function(block, rng, 'tick', target=tv)
